@@ -72,7 +72,8 @@ def pages_term(codes, oo, ns, o):
     return vlib.coq_list(pages)
 
 
-BAD = "(Some [[((-9, -9, -9), ([], false))]])"
+BAD_PAGES = "(Some [[((-9, -9, -9), ([], false))]])"
+BAD_WRITE = "PAsk 999999 (BGet 0 []) (ORel None)"      # kind mismatch: no variant agrees
 
 _SEEN = {}
 _UNEXPLAINED = None
@@ -86,7 +87,6 @@ def term(c, o):
 def _term(c, o):
     codes = c3.IdCodes(o)
     ns = o.get("ns") or {}
-    ticks = sc.write_ticks(c)
     dss = vlib.coq_list([str(c3.ds_code(o, d)) for d in c["datasets"] if d in (o.get("dsids") or {})])
     dead = o.get("outcome") != "ok"
     terms = []
@@ -102,7 +102,7 @@ def _term(c, o):
             lens = oo.get("lens") or [0] * len(op["ents"])
             terms.append("PWrite (WBatch %d %s)" % (c3.ds_code(o, op["ds"]), vlib.coq_list([sc.ent_term(codes, e, l) for e, l in zip(op["ents"], lens)])))
             if bad:
-                terms.append("PRel [] 0 false [] None [] %s None" % BAD)
+                terms.append(BAD_WRITE)
         elif k == "txn":
             lens = list(oo.get("lens") or [])
             sets = []
@@ -112,37 +112,30 @@ def _term(c, o):
                 sets.append("(%d, %s)" % (c3.ds_code(o, s["ds"]), vlib.coq_list([sc.ent_term(codes, e, l) for e, l in zip(s["ents"], ls)])))
             terms.append("PWrite (WTxn %s)" % vlib.coq_list(sets))
             if bad:
-                terms.append("PRel [] 0 false [] None [] %s None" % BAD)
-        elif k == "get":
-            at = "None" if not op.get("at") else "(Some %d)" % ticks.get(op["at"]["after_op"], 0)
+                terms.append(BAD_WRITE)
+        elif k in ("get", "related"):
             req = vlib.coq_list([str(c3.ds_code(o, d)) for d in op.get("datasets", [])])
-            if bad:
-                f, b = "true", "([(0, {| c_del := false; c_props := []; c_refs := []; c_len := -9 |})], false)"
+            if k == "get":
+                probe = "(BGet %d %s)" % (codes.ucode(sc.expand(op["id"])), req)
+                if bad:
+                    ob = "(OGet true ([(0, {| c_del := false; c_props := []; c_refs := []; c_len := -9 |})], false))"
+                else:
+                    ob = "(OGet %s %s)" % get_obs_term(codes, oo, ns, o)
             else:
-                f, b = get_obs_term(codes, oo, ns, o)
-            exp = "None"
+                pred = 0 if op["pred"] == "*" else codes.ucode(sc.expand(op["pred"]))
+                starts = vlib.coq_list([str(codes.ucode(sc.expand(s))) for s in op["starts"]])
+                lims = vlib.coq_list([vlib.zlit(x) for x in op.get("limits", [])])
+                probe = "(BRel %s %d %s %s %s)" % (starts, pred, vlib.coq_bool(op.get("inverse", False)), req, lims)
+                if bad and "could not load predicate id" in (oo.get("err") or ""):
+                    ob = "(ORel None)"
+                elif bad:
+                    ob = "(ORel %s)" % BAD_PAGES
+                else:
+                    ob = "(ORel (Some %s))" % pages_term(codes, oo, ns, o)
             if "_twin" in op:
-                tf, tb = get_obs_term(codes, obs_of(op["_twin"]), ns, o)
-                exp = "(Some (%s, %s))" % (tf, tb)
-            terms.append("PGet %d %s %s %s %s %s" % (codes.ucode(sc.expand(op["id"])), at, req, f, b, exp))
-        elif k == "related":
-            at = "None" if not op.get("at") else "(Some %d)" % ticks.get(op["at"]["after_op"], 0)
-            pred = 0 if op["pred"] == "*" else codes.ucode(sc.expand(op["pred"]))
-            starts = vlib.coq_list([str(codes.ucode(sc.expand(s))) for s in op["starts"]])
-            req = vlib.coq_list([str(c3.ds_code(o, d)) for d in op.get("datasets", [])])
-            lims = vlib.coq_list([vlib.zlit(x) for x in op.get("limits", [])])
-            if bad and "could not load predicate id" in (oo.get("err") or ""):
-                pages = "None"
-            elif bad:
-                pages = BAD
+                terms.append("PPin %d %s" % (op["_twin"], ob))      # the probe itself is the one recorded under that id
             else:
-                pages = "(Some %s)" % pages_term(codes, oo, ns, o)
-            exp = "None"
-            if "_twin" in op:
-                too = obs_of(op["_twin"])
-                if not (too.get("err") or too.get("panic")):
-                    exp = "(Some %s)" % pages_term(codes, too, ns, o)
-            terms.append("PRel %s %d %s %s %s %s %s %s" % (starts, pred, vlib.coq_bool(op.get("inverse", False)), req, at, lims, pages, exp))
+                terms.append("PAsk %d %s %s" % (i, probe, ob))
         else:
             raise ValueError("op kind not handled: " + k)
     return "{| pc_ds := %s; pc_ops := %s |}" % (dss, vlib.coq_list(["\n  " + t for t in terms]))
@@ -242,9 +235,9 @@ def run(binp, cases):
 def predict_text(c, o):
     t = term(c, o)
     body = "Definition c : pcase := %s.\n" % t
-    body += ("Eval vm_compute in (C06Check.first_bad pv_current (pc_ds c) rstore0 (pc_ops c) 0%N, "
-             "C06Check.first_bad pv_fixed (pc_ds c) rstore0 (pc_ops c) 0%N, C06Check.spec_ok c, "
-             "indices_where (fun o => negb (spec_pop_ok o)) (pc_ops c)).\n")
+    body += ("Eval vm_compute in (C06Check.first_bad pv_current (pc_ds c) rstore0 [] (pc_ops c) 0%N, "
+             "C06Check.first_bad pv_fixed (pc_ds c) rstore0 [] (pc_ops c) 0%N, C06Check.spec_ok c, "
+             "C06Check.spec_bad [] (pc_ops c) 0%N).\n")
     ok, out, _ = vlib.coq_eval("C06p", ["Lib.CheckLib"] + CHECK_MODULE.split(), body)
     return ("index (in the term's op list) of the first op the model does not predict [current, fixed]; spec_ok; indices of the pinned "
             "probes whose answer differs from the recorded one:\n" + out.strip())
